@@ -6,6 +6,8 @@ require (
 	github.com/anishathalye/porcupine v1.3.0
 	github.com/go-chi/chi/v5 v5.2.5
 	github.com/libp2p/go-buffer-pool v0.1.0
+	github.com/mholt/acmez/v3 v3.1.6
+	github.com/miekg/dns v1.1.72
 	github.com/ncruces/go-sqlite3 v0.30.5
 	github.com/quic-go/quic-go v0.59.0
 	github.com/tidwall/wal v1.2.1
@@ -36,8 +38,6 @@ require (
 	github.com/mattn/go-colorable v0.1.13 // indirect
 	github.com/mattn/go-isatty v0.0.20 // indirect
 	github.com/mattn/go-runewidth v0.0.16 // indirect
-	github.com/mholt/acmez/v3 v3.1.6 // indirect
-	github.com/miekg/dns v1.1.72 // indirect
 	github.com/montanaflynn/stats v0.7.1 // indirect
 	github.com/ncruces/julianday v1.0.0 // indirect
 	github.com/planetscale/vtprotobuf v0.6.0 // indirect
